@@ -183,12 +183,119 @@ def norm_path(p):
     return q
 
 
+def signature(crate, name, body):
+    """what identifies a function besides its name: parameter types, return type, callees"""
+    callees = set()
+    stack = [body.get("hir")]
+    while stack:
+        x = stack.pop()
+        if isinstance(x, dict):
+            if x.get("k") in ("Call", "MethodCall"):
+                c = x.get("inst") or x.get("callee")
+                if isinstance(c, str):
+                    callees.add(norm_path(c))
+            stack.extend(x.values())
+        elif isinstance(x, list):
+            stack.extend(x)
+    ps = body.get("params") or []
+    return {"pnames": [p.get("name") if p.get("k") == "Binding" else None for p in ps], "ptys": [p.get("ty") for p in ps],
+            "ret": (body.get("hir") or {}).get("ty"), "callees": sorted(callees)}
+
+
+_SIGS = None
+
+
+def known_sigs():
+    global _SIGS
+    if _SIGS is None:
+        p = os.path.join(VERIF, "refs", "known_sigs.json")
+        _SIGS = json.load(open(p)) if os.path.exists(p) else {}
+    return _SIGS
+
+
+def canonicalise(raw, fname):
+    """Present renamed / moved private functions and renamed parameters under the names the rules know.
+
+    A function of the frozen reference (refs/known_sigs.json, same crate / configuration / target) that no longer
+    exists is matched with a function that did not exist then when they have the same parameter and return types and
+    their callee sets overlap (Jaccard >= 0.5, unique best match); every occurrence of the new path in the facts is
+    then replaced by the old path.  Parameters of known functions get their frozen names back (by position).
+    Returns (raw, {new: old}, [(fn, old_param, new_param)])."""
+    key = "%s|%s|%s" % (raw.get("crate"), raw.get("config"), fname)
+    ref = known_sigs().get(key)
+    if not ref or os.environ.get("VERIF_NO_CANON"):
+        return raw, {}, []
+    cur = {}
+    for b in raw["bodies"]:
+        k = norm_path(b["def"])
+        if b.get("dk") in ("Fn", "AssocFn") and "{closure" not in k:
+            cur[k] = b
+    missing = [k for k in ref if k not in cur]
+    new = [k for k in cur if k not in ref]
+    alias = {}
+    if missing and new:
+
+        class _C:
+            pass
+        sig_new = {k: signature(None, k, cur[k]) for k in new}
+        for m in missing:
+            best = []
+            for k, s in sig_new.items():
+                if k in alias:
+                    continue
+                if s["ptys"] != ref[m]["ptys"] or s["ret"] != ref[m]["ret"]:
+                    # moving a free function into an impl changes `T` to `Self`-spellings only in the name, not in the types
+                    continue
+                a, b_ = set(s["callees"]), set(ref[m]["callees"])
+                j = len(a & b_) / float(len(a | b_)) if (a | b_) else 1.0
+                same_leaf = k.split("::")[-1] == m.split("::")[-1]
+                if j >= 0.5 or (same_leaf and j >= 0.3):
+                    best.append((j + (0.25 if same_leaf else 0), k))
+            best.sort(reverse=True)
+            if best and (len(best) == 1 or best[0][0] - best[1][0] >= 0.15):
+                alias[best[0][1]] = m
+    if alias:
+        import re
+        txt = json.dumps(raw)
+        for newp, oldp in sorted(alias.items(), key=lambda kv: -len(kv[0])):
+            txt = re.sub(r'(?<![\w:])' + re.escape(newp) + r'(?![\w])', oldp.replace("\\", "\\\\"), txt)
+        raw = json.loads(txt)
+    renamed = []
+    for b in raw["bodies"]:
+        k = norm_path(b["def"])
+        r = ref.get(k)
+        if not r or b.get("dk") not in ("Fn", "AssocFn"):
+            continue
+        ps = b.get("params") or []
+        if len(ps) != len(r["pnames"]):
+            continue
+        ren = {}
+        for p, old in zip(ps, r["pnames"]):
+            if p.get("k") == "Binding" and old and p.get("name") != old:
+                ren[p["hid"]] = (p["name"], old)
+                renamed.append((k, old, p["name"]))
+                p["name"] = old
+        if ren:
+            # the parameter's uses carry its name too
+            stack = [b.get("hir")]
+            while stack:
+                x = stack.pop()
+                if isinstance(x, dict):
+                    if x.get("k") == "Path" and x.get("res") == "local" and x.get("hid") in ren and x.get("name") == ren[x["hid"]][0]:
+                        x["name"] = ren[x["hid"]][1]
+                    stack.extend(x.values())
+                elif isinstance(x, list):
+                    stack.extend(x)
+    return raw, alias, renamed
+
+
 class Crate:
     """One fact file with indices."""
 
     def __init__(self, path):
         with open(path) as fh:
             self.raw = json.load(fh)
+        self.raw, self.aliases, self.renamed_params = canonicalise(self.raw, os.path.basename(path))
         self.path = path
         self.name = self.raw["crate"]
         self.config = self.raw["config"]
